@@ -178,7 +178,7 @@ CHECKS['C11'] = dict(
         U('inpkg', 'TestVerifC11_Grammar', q(160000, 16), q(2400000, 16, cap=1800), pkg='src'),
         U('inpkg', 'FuzzVerifC11_Bytes', None, q(fuzz=120), pkg='src'),
         U('inpkg', 'FuzzVerifC11_Grammar', None, q(fuzz=90), pkg='src'),
-        U('proc', 'TestVerifC11_ProcColours', q(320, 16, cap=900), q(6400, 16, cap=3000), needs_fzf=True),
+        U('proc', 'TestVerifC11_ProcColours', q(480, 16, cap=900), q(6400, 16, cap=3000), needs_fzf=True),
         U('proc', 'TestVerifC11_ProcPrinted', q(320, 16, cap=900), q(6400, 16, cap=3000), needs_fzf=True),
         U('lib', 'TestVerifC11_LibPrinted', q(16000, 16), q(320000, 16, cap=1500)),
     ])
